@@ -37,6 +37,8 @@ def gate_specs() -> dict[str, dict[str, Any]]:
         "gate-diamond": {"name": "gate-diamond", "stages": [stage("a", [], [ok()]), stage("g", ["a"], [ok(), g()]), stage("b", ["a"], [ok(), ok()]),
                                                                stage("z", ["g", "b"], [ok()])], "gates": ["g"]},
         "gate-first": {"name": "gate-first", "stages": [stage("g", [], [g()]), stage("z", ["g"], [ok()])], "gates": ["g"]},
+        # a gate beside an independent branch that finishes (no join): CompleteWorkflow is queued while the gate waits
+        "gate-beside-branch": {"name": "gate-beside-branch", "stages": [stage("a", [], [ok()]), stage("g", ["a"], [g()]), stage("b", ["a"], [ok(), ok()])], "gates": ["g"]},
         "two-gates": {"name": "two-gates", "stages": [stage("a", [], [ok()]), stage("g", ["a"], [g()]), stage("h", ["g"], [g(), ok()]), stage("z", ["h"], [ok()])],
                       "gates": ["g", "h"]},
     }
@@ -265,7 +267,7 @@ def shard_race(prop: str, tier: str, seed: int, name: str, P: int) -> dict[str, 
         before = dict(c.buckets)
         c07.judge_pair(c, name, sc, w, s, pre, ["signal-race"])
 
-    n = explore(mk, lambda w_: [handle_one() for _ in range(sc["workers"])], j, max_preemptions=P)
+    n = explore(mk, lambda w_: c07.pair_programs(sc), j, max_preemptions=P)
     c.extra[f"schedules:{name}"] = n
     return c.export()
 
@@ -283,7 +285,7 @@ def run(c: Campaign, jobs: int) -> None:
     for name in gate_specs():
         args.append((shard_crash, (c.prop, c.tier, c.seed, name, True)))
         args.append((shard_crash, (c.prop, c.tier, c.seed, name, False)))
-    for name in ("signal-vs-suspend-persistent", "signal-vs-suspend-transient"):
+    for name in ("signal-vs-suspend-persistent", "signal-vs-suspend-transient", "signal-vs-startstage-persistent", "signal-vs-startstage-transient", "buffered-resume-vs-second-worker"):
         args.append((shard_race, (c.prop, c.tier, c.seed, name, 2 if quick else 4)))
     run_shards(c, _dispatch, args, jobs)
     c.exhaustive_parts.append("SignalStage racing the suspending RunTask result (persistent and transient): all schedules with <= 2 pre-emptions (thorough 4)")
